@@ -256,6 +256,20 @@ class OfRun(object):
                     c = o.clone(cloneValueFlag=True)
                     if self.snapshot() != before or lib.encode('DER', c).value != before[2]:
                         return fail('of', 'clone-content', 'a deep clone does not encode like the original', self.hist)
+                    if self.nested and self.setup['typed']:
+                        # members that are EMPTY containers when the copy is taken (an empty list value, a record of which no
+                        # member is set) are copied like any other: like copy.deepcopy of [[], [1], ...]
+                        o2 = o.clone(cloneValueFlag=True)
+                        e0 = univ.SequenceOf(componentType=univ.Integer())
+                        e0.clear()
+                        o2.setComponentByPosition(0, e0)
+                        d0 = lib.encode('DER', o2).value
+                        c2 = o2.clone(cloneValueFlag=True)
+                        c2[0].append(univ.Integer(7))
+                        if len(o2[0]) != 0 or lib.encode('DER', o2).value != d0:
+                            return fail('of', 'clone-shares-state', 'appending to an (empty) member of the deep clone changed the original', self.hist, 'empty-member')
+                        if len(c2[0]) != 1:
+                            return fail('of', 'clone-content', 'the member of the deep clone did not take the element', self.hist, 'empty-member')
                 self.o = c
                 self.m = list(m) if (op[1] and m is not None) else None
             elif name == 'read':
@@ -1105,9 +1119,11 @@ def run_shard(desc, seed, tier, col):
                 col.fail(f['sub'], f['kind'], f['msg'], f['case'], sig=f['sig'])
         harness.run_given(strat2, body2, seed + 1, max(50, desc['examples'] // 3), col)
         vals = st.one_of(st.sampled_from([0, 1, -1, 127, 128, 300]), st.lists(st.integers(0, 255), max_size=3))
-        op = st.one_of(st.tuples(st.just('set'), st.integers(0, 4), vals), st.tuples(st.just('set'), st.integers(0, 4), vals),
+        # (a position beyond the end appends: records of a dozen and more members - 'field-10' sorts before 'field-2' - are reached)
+        pos = st.sampled_from([0, 1, 2, 3, 4, 9, 10, 11, 99, 99, 99, 99])
+        op = st.one_of(st.tuples(st.just('set'), pos, vals), st.tuples(st.just('set'), pos, vals), st.tuples(st.just('set'), pos, vals),
                        st.tuples(st.just('clone')), st.tuples(st.just('clear')))
-        strat = st.tuples(st.sampled_from(['SEQUENCE', 'SEQUENCE', 'SET']), st.lists(op, min_size=1, max_size=10))
+        strat = st.tuples(st.sampled_from(['SEQUENCE', 'SEQUENCE', 'SEQUENCE', 'SET']), st.lists(op, min_size=1, max_size=20))
 
         def body(x):
             case = {'dynrec': x[0], 'ops': [list(o) for o in x[1]]}
